@@ -150,12 +150,68 @@ def method_dispatch_violations(prop, scratch, harness, seed, replay_cases=None):
     return out, stat["requests"]
 
 
+REV_FORMULAS = {"C11": ("SafeOps", "OpResult", "NoFalseUnimplemented", "DispatchLive", "NoneIsUnimplemented"), "C01": ("DispatchLive",)}
+
+
+def rev_violations(prop, tier, scratch, harness, seed, replay_cases=None):
+    """RegRev.tla: a connection whose backend changes the revision of the service it announces between registrations;
+    every history of {register, drop, bump} up to length 5 (thorough: 6), every binding of both revisions probed after
+    every step, folded and judged by RegRevTrace.tla."""
+    if replay_cases is None:
+        mc = C.tlc(scratch, "RegRev.tla", "RegRev_MC.cfg", workers=2, timeout=600, tag="revmc")
+        C.tlc_ok(mc, "RegRev_MC")
+        if C.tlc_violated(mc):
+            raise C.Infra("RegRev design check violated:\n" + mc["out"][-2000:])
+        neg = C.tlc(scratch, "RegRev.tla", "RegRev_Neg_DelOne.cfg", workers=2, timeout=600, tag="revneg")
+        if not C.tlc_violated(neg):
+            raise C.Infra("vacuity guard RegRev_Neg_DelOne was not violated")
+        g = C.tlc(scratch, "RegRev_Gen.tla", "RegRev_Gen.cfg", workers=1, timeout=600, tag="revgen")
+        hists = list(C.printed(g["out"], "HIST"))
+        if len(hists) < 300:
+            raise C.Infra("RegRev_Gen produced too few histories:\n" + g["out"][-1500:])
+    else:
+        hists = replay_cases
+    hists = [dict(h, id=i + 1) for i, h in enumerate(hists)]
+    hp, tr = scratch.path("revhists.jsonl"), scratch.path("revtrace.ndjson")
+    with open(hp, "w") as f:
+        for h in hists:
+            f.write(json.dumps(h) + "\n")
+    p, _ = C.run([harness, "regrev", "-cases", hp, "-out", tr], timeout=1800)
+    if p.returncode != 0:
+        raise C.Infra("regrev driver failed:\n" + p.stdout[-3000:])
+    n = sum(1 for _ in open(tr))
+    rep = C.validate_shards(scratch, "RegRevTrace.tla", "RegRevTrace.cfg", [(tr, n)], timeout=1800)[0]
+    lines = open(tr).read().splitlines()
+    by_id = {h["id"]: h for h in hists}
+    out = {}
+    for case, line, formula in rep["failed"]:
+        if formula not in REV_FORMULAS[prop]:
+            continue
+        ev = json.loads(lines[line - 1])
+        key = (formula, "regrev", tuple(ev["ops"][-2:]))
+        if key in out:
+            out[key]["more"] += 1
+            continue
+        out[key] = dict(property=prop, formula=formula, seed=seed, cases=[by_id[case]], history_so_far=ev["ops"], observed=ev, more=0, replay_driver="regrev",
+                        signature=dict(module="RegRev", formula=formula, last_op=ev["ops"][-1]),
+                        what="%s after %s (the backend changes the announced revision at 'bump'): %s %s" % (
+                            formula, ev["ops"], [(q["bind"], q["k"], q["by"]) for q in ev["probes"]], ev["crash"][:100]))
+    return out, rep["stat"]
+
+
 def run(prop, tier, replay=None):
     t0 = time.time()
     seed = C.seed()
     scratch = C.Scratch(prop.lower())
     try:
         harness = C.build_harness(scratch)
+        if replay and json.load(open(replay)).get("replay_driver") == "regrev":
+            rp = json.load(open(replay))
+            rv, rstat = rev_violations(prop, tier, scratch, harness, seed, rp["cases"])
+            for key, v in sorted(rv.items(), key=str):
+                print("VIOLATION property=%s replay=%s  (%s; +%d similar)" % (prop, C.write_replay(prop, "RegRev-%d" % (abs(hash(str(key))) % 100000), v), v["what"][:400], v["more"]))
+            print("%s replay: revision histories=1, violations=%d" % (prop, len(rv)))
+            return 1 if rv else 0
         if replay:
             rp = json.load(open(replay))
             design = dict(states=0, transitions=0, neg_guards=0)
@@ -167,6 +223,13 @@ def run(prop, tier, replay=None):
                 design = fd.result()
                 hists, stat, failed, trace = fh.result()
         viol, known = judge(prop, failed, hists, seed)
+        rev_steps = 0
+        if prop == "C11" and not replay:
+            rv, rstat = rev_violations(prop, tier, scratch, harness, seed)
+            rev_steps = rstat["steps"]
+            for key, v in rv.items():
+                v["observed"] = dict(v["observed"], probes=v["observed"]["probes"][:6])
+                viol[key] = v
         sstat = collections.Counter()
         if prop == "C12" and not replay:
             # concurrent part: seeded stress under the race detector, interval-validated by RegStressTrace.tla
@@ -238,7 +301,7 @@ def run(prop, tier, replay=None):
                    samples=samples, exhaustive=(tier != "quick"), neg_guards_violated=design.get("neg_guards"),
                    **{k: v for k, v in stat.items() if k != "hists"}, known_findings=dict(known),
                    stress_ops=sstat["ops"], stress_requests=sstat["reqs"], stress_requests_overlapping_an_operation=sstat["overlapping"],
-                   stress_under_race_detector=(prop == "C12"))
+                   stress_under_race_detector=(prop == "C12"), revision_history_steps=rev_steps)
         C.write_evidence(prop, tier, "model_checking", cov,
                          ["backends are in-process grpc-go servers on bufconn with the standard reflection service; grpc-go is trusted",
                           "the handler pick is random: 24-40 requests per probe make missing a live backend's misbehaviour unlikely, not impossible"],
